@@ -129,6 +129,41 @@ def _run(args: tuple[str, str, str, str, str, str]) -> dict[str, Any]:
         shutil.rmtree(scratch, ignore_errors=True)
 
 
+def _survives_suite(args: tuple[str, str, str]) -> bool:
+    """Triage aid: does the pinned test suite still pass (120 baseline
+    tests) on a scratch copy of the repository with this mutant?"""
+    import json as _json
+    import subprocess
+    import xml.etree.ElementTree as ET
+    root, relpath, new_src = args
+    scratch = Path(tempfile.mkdtemp(prefix="sa_automut_t_"))
+    try:
+        for d in ("tel2puml", "tests", "end-to-end-pumls", "puml_files",
+                  "docs"):
+            if (Path(root) / d).exists():
+                shutil.copytree(Path(root) / d, scratch / d,
+                                ignore=shutil.ignore_patterns("__pycache__"))
+        (scratch / relpath).write_text(new_src)
+        xml = scratch / "j.xml"
+        subprocess.run(
+            ["/venv/bin/python", "-m", "pytest", "-q", "-p",
+             "no:cacheprovider", "--timeout=300",
+             "--continue-on-collection-errors", f"--junitxml={xml}",
+             "tests/tel2puml/otel_to_pv", "tests/tel2puml/test_utils.py",
+             "tests/tel2puml/test_tel2puml_types.py"],
+            cwd=scratch, capture_output=True, timeout=900)
+        base = _json.load(open("/root/.vp/BASELINE.json"))["stable_pass"]
+        res = {}
+        for tc in ET.parse(xml).iter("testcase"):
+            res[f"{tc.get('classname')}::{tc.get('name')}"] = not any(
+                c.tag in ("failure", "error", "skipped") for c in tc)
+        return all(res.get(n) for n in base)
+    except Exception:
+        return False
+    finally:
+        shutil.rmtree(scratch, ignore_errors=True)
+
+
 def generate(prop: str, root: Path) -> list[tuple[str, str, str, str, str, str]]:
     from .main import run_rules, CLAIMED
     seen: set[str] = set()
@@ -193,6 +228,18 @@ def main() -> int:
         und = [r for r in res if r["status"] == "undetected"]
         print(f"{prop}: {len(res)} auto-mutants, {det} detected, {err} "
               f"analysis-error, {len(und)} undetected")
+        if "--with-tests" in sys.argv:
+            # keep only the undetected mutants the pinned suite also accepts
+            by = {(j[3], j[4]): j for j in jobs}
+            und_jobs = [by[(r["func"], r["desc"])] for r in und
+                        if (r["func"], r["desc"]) in by]
+            with ProcessPoolExecutor(max_workers=16) as ex:
+                ok = list(ex.map(_survives_suite,
+                                 [(j[1], j[2], j[5]) for j in und_jobs]))
+            keep = {(j[3], j[4]) for j, o in zip(und_jobs, ok) if o}
+            print(f"   of {len(und)} undetected, {len(keep)} also pass the "
+                  "pinned suite")
+            und = [r for r in und if (r["func"], r["desc"]) in keep]
         if show:
             for r in und:
                 print(f"   UNDETECTED {r['func']}: {r['desc']}")
